@@ -132,15 +132,21 @@ func chargedProps(opKind, mismatchKind string) []string {
 	case "dl_sweep":
 		return []string{"C01", "C03", "C05", "C06"}
 	case "seek_time", "seek_snap":
-		return []string{"C01", "C02", "C05", "C13", "C14"}
+		// (C03: a Seek is the one operation that may rewind acknowledged messages — of its own subscription only)
+		return []string{"C01", "C02", "C03", "C05", "C13", "C14"}
 	case "snapshot", "delete_snap":
 		return []string{"C01", "C02", "C13"}
 	case "expire_subs":
 		return []string{"C01", "C14", "C15"}
 	case "set_delay":
 		return []string{"C14"}
-	case "create_topic", "delete_topic", "create_sub", "delete_sub":
-		return []string{"C12", "C17", "C01", "C02"}
+	case "delete_topic", "delete_sub":
+		// what a delete leaves behind is what the maintenance jobs have to reclaim (C15)
+		return []string{"C12", "C17", "C01", "C02", "C15"}
+	case "create_topic", "create_sub":
+		// the configuration a subscription is created with (retry policy, ordering, dead-letter policy,
+		// filter, TTLs) is what the data-plane properties quantify over
+		return []string{"C12", "C17", "C01", "C02", "C04", "C05", "C06", "C07", "C14"}
 	case "rpc":
 		// a control-plane request inside a data-plane history (UpdateSubscription with a mask): the
 		// configuration it stores is what every later operation of the history runs under
@@ -623,7 +629,7 @@ func TestCoreSmoke(t *testing.T) {
 var (
 	profC02 = Profile{Name: "C02", Update: 1, Publish: 5, Pull: 6, Ack: 4, Nack: 2, Delay: 2, Advance: 4, Seek: 3, Snap: 3, Maint: 2, Sweep: 1, Churn: 1}
 	profC01 = Profile{Name: "C01", Update: 1, SetDelay: 1, Publish: 6, Pull: 6, Ack: 3, Nack: 2, Delay: 2, Advance: 4, Seek: 1, Snap: 1, Maint: 3, Sweep: 1, Churn: 1}
-	profC03 = Profile{Name: "C03", Publish: 5, Pull: 7, Ack: 6, Nack: 4, Delay: 4, Advance: 4, Maint: 1, Sweep: 1, NoSeek: true}
+	profC03 = Profile{Name: "C03", Publish: 5, Pull: 7, Ack: 6, Nack: 4, Delay: 4, Advance: 4, Maint: 1, Sweep: 1, Seek: 2, Snap: 1}
 	profC04 = Profile{Name: "C04", Update: 1, Publish: 4, Pull: 9, Ack: 1, Nack: 3, Delay: 4, Advance: 6, NoSeek: true, NoDL: true}
 	profC05 = Profile{Name: "C05", Update: 1, Publish: 7, Pull: 7, Ack: 5, Nack: 2, Delay: 1, Advance: 4, Maint: 2, Sweep: 1, Seek: 1, Snap: 1, OrderedOnly: true}
 	profC06 = Profile{Name: "C06", Update: 1, Publish: 5, Pull: 8, Ack: 1, Nack: 4, Delay: 2, Advance: 5, Sweep: 3, Churn: 1}
@@ -632,8 +638,40 @@ var (
 	profC15 = Profile{Name: "C15", Publish: 5, Pull: 6, Ack: 4, Nack: 1, Advance: 5, Maint: 8, Sweep: 1, Churn: 2, Seek: 1, Snap: 1, BigAdvance: true}
 )
 
+// streamOffered: on the streaming path too a message keeps being offered until it is acknowledged —
+// a deadline extension or a nack sent on the stream is not an acknowledgement
+func streamOffered(t *testing.T, st *Stats) {
+	for _, grpc := range []bool{true, false} {
+		for _, how := range []string{"extend", "nack"} {
+			if how == "extend" && !grpc {
+				// without AutomaticNack (the actions-level streamer as the push path uses it) the streamer itself
+				// keeps renewing the lease of what it has sent while the stream is open: no redelivery is due
+				continue
+			}
+			cs := c11Case{Name: fmt.Sprintf("offered-after-%s-grpc=%v", how, grpc), Grpc: grpc, Actions: []c11Action{{K: "fc", Msgs: 3, Byts: 10000}, {K: "publish", Pads: []int{0}},
+				{K: how, Pick: []int{0}}, {K: "advance", D: 200 * Sec}}}
+			r := c11Run(t, Seed(), cs, map[string]bool{"stall-head-of-line": true})
+			st.Count("stream_offered_cases", 1)
+			what := ""
+			switch {
+			case r.violation != "" && r.sig == "stall":
+				what = r.violation
+			case r.sentTotal < 2:
+				what = fmt.Sprintf("a message sent on a StreamingPull stream and then only %s-ed on the stream (never acknowledged) was not offered again within 200 s; sends seen: %d, completed deliveries: %d", how, r.sentTotal, r.completed)
+			}
+			if what != "" {
+				p := ReplayPath(fmt.Sprintf("C01-stream-%s-%d.json", cs.Name, Seed()))
+				b, _ := json.MarshalIndent(c11Replay{Property: "C01", Sig: "stream-not-offered", Seed: Seed(), Case: cs, What: what}, "", " ")
+				os.WriteFile(p, b, 0o644)
+				st.Violate(Violation{What: "[stream-not-offered] " + what, Replay: p, FoundInput: true, Sig: "stream-not-offered"})
+				return
+			}
+		}
+	}
+}
+
 func TestC01(t *testing.T) {
-	runCore(t, coreCfg{prop: "C01", profile: profC01, quickSeeds: 40, thoroughSeeds: 1600, nops: 100, drain: true})
+	runCore(t, coreCfg{prop: "C01", extra: streamOffered, profile: profC01, quickSeeds: 40, thoroughSeeds: 1600, nops: 100, drain: true})
 }
 func TestC02(t *testing.T) {
 	runCore(t, coreCfg{prop: "C02", profile: profC02, quickSeeds: 40, thoroughSeeds: 1600, nops: 100, drain: true})
@@ -698,6 +736,10 @@ func TestC03(t *testing.T) {
 // while it is outstanding, whatever positive deadline extensions the client sends (actions streamer
 // and gRPC StreamingPull handler)
 func streamLease(t *testing.T, st *Stats) {
+	pullExclusive(t, st)
+	if len(st.Violations) > 0 {
+		return
+	}
 	cases := []c11Case{
 		{Name: "lease-grpc-extend", Grpc: true, Actions: []c11Action{{K: "fc", Msgs: 3, Byts: 10000}, {K: "publish", Pads: []int{0, 0}}, {K: "extend", Pick: []int{0}}, {K: "extend", Pick: []int{0, 1}}, {K: "publish", Pads: []int{0}}, {K: "extend", Pick: []int{2}}, {K: "ack", Pick: []int{0}}}},
 		{Name: "lease-streamer-extend", Actions: []c11Action{{K: "fc", Msgs: 3, Byts: 10000}, {K: "publish", Pads: []int{0, 0}}, {K: "extend", Pick: []int{1}}, {K: "extend", Pick: []int{0, 1}}, {K: "ack", Pick: []int{0}}}},
